@@ -177,7 +177,8 @@ class C18(Prop):
                 "Wheatley.C18.pyInt_numeral",
                 "Wheatley.C18.pealSpeed_value",
                 "Wheatley.C18.pn_never_fails",
-                "Wheatley.C18.accepted_notation_rings"]
+                "Wheatley.C18.accepted_notation_rings",
+                "Wheatley.C18.cli_bad_start_row", "Wheatley.C18.cli_bad_peal_speed", "Wheatley.C18.cli_bad_place_notation", "Wheatley.C18.cli_bad_call", "Wheatley.C18.cli_built_from_accepted_values"]
     level_text = ("theorems (for every interpretation of Python's digit and white-space tables): the parsers are "
                   "total and never leave their own error class - in particular int() cannot fail after the "
                   "isdecimal() test; parse_peal_speed of a rendered 'XhYY'/'NNN' value gives 60X+YY; valid_pn implies "
@@ -262,6 +263,11 @@ class C18(Prop):
                                                              "0x1F", "1e3", "٣x", "５"]),
                         "?accessKey=" + rng.choice(["", "k=v", "²", "a b"]) + "&substitutedmethodid=" + rng.choice(["9", "x", "²"])])
         return base + q
+
+    generated_deps = ["Constants.lean", "CharTables.lean", "CliDefaults.lean"]
+    # whole command lines: how they are refused, and what the values given turn into
+    cli_fields = ["refusals", "source", "peal_speed"]
+    cli_n = (600, 8000)
 
     def impl(self, req):
         return impl_cli(req) if req.get("cli") else impl_parse(req)
